@@ -295,3 +295,88 @@ def s19a_collapse_discipline(ctx):
         r.violate('CollapseTimeframe|new|accepts-zero', 'CollapseTimeframe::new does not reject period = 0', nb.file, nb.line)
     r.floor('paths of next', 2, n)
     return r
+
+
+def s19c_high_low_mirror(ctx):
+    """Wherever a candle is built with a computed `high` and a computed `low`, the two expressions are mirror images (max <-> min, high <-> low):
+    one-sided clamps give candles whose low is above (high below) their own body."""
+    import r_mirror
+    f = ctx.facts('default')
+    m = Model(f)
+    r = RuleResult('S19c', 'every candle literal with computed `high` and `low` computes them by mirror-image expressions (max/min, high/low swapped)')
+    ohlcv_types = set(m.types_implementing(T_OHLCV))
+    PAIRS = [('high', 'low'), ('max', 'min'), ('Highest', 'Lowest'), ('highest', 'lowest'), ('Gt:f', 'Lt:f'), ('Ge:f', 'Le:f'),
+             ('local_high', 'local_low'), ('local_highest', 'local_lowest'), ('local_max', 'local_min')]
+
+    def find(e, out):
+        if isinstance(e, list):
+            for x in e:
+                find(x, out)
+        elif isinstance(e, dict):
+            if e.get('e') == 'struct' and isinstance(e.get('fields'), list):
+                names = {fl.get('name'): fl for fl in e['fields'] if isinstance(fl, dict)}
+                if 'high' in names and 'low' in names:
+                    out.append((e, names))
+            for v in e.values():
+                find(v, out)
+
+    def computed(x):
+        found = []
+        def go(y):
+            if isinstance(y, list):
+                for z in y:
+                    go(z)
+            elif isinstance(y, dict):
+                if y.get('e') in ('mcall', 'call', 'bin', 'if', 'match'):
+                    found.append(1)
+                for z in y.values():
+                    go(z)
+        go(x)
+        return bool(found)
+
+    n = 0
+    for d, h in sorted(f.hir.items()):
+        if '::tests::' in d or d.startswith('helpers::RandomCandles') or 'RandomCandles' in d:
+            continue
+        out = []
+        find(h['body'], out)
+        for e, names in out:
+            tyd = (e.get('path') or {}).get('def') or ''
+            if ohlcv_types and not any(tyd == t or tyd.startswith(t) for t in ohlcv_types) and 'Candle' not in (e.get('ty') or '') and 'HLC' not in (e.get('ty') or ''):
+                continue
+            if not (computed(names['high'].get('v')) and computed(names['low'].get('v'))):
+                continue
+            n += 1
+            key = '%s|high~low' % d
+            r.inst(key)
+            # locals keep their own names here (the two expressions live in one scope: `open` and `close` are different values)
+            ident = {}
+
+            def collect(y):
+                if isinstance(y, list):
+                    for z in y:
+                        collect(z)
+                elif isinstance(y, dict):
+                    if y.get('e') == 'path' and y.get('res') == 'local':
+                        ident[y['name']] = 'local_' + y['name']
+                    for z in y.values():
+                        collect(z)
+            collect(names['high'].get('v'))
+            collect(names['low'].get('v'))
+            hi = r_mirror.canon(names['high'].get('v'), dict(ident))
+            lo = r_mirror.canon(names['low'].get('v'), dict(ident))
+            sw = r_mirror.swap_tokens(hi, PAIRS)
+            if sw != lo:
+                diff = r_mirror.first_diff(sw, lo)
+                r.violate(key + '|asymmetric', '%s builds a candle whose `low` is not the mirror image of its `high` (at %s: high side mirrored has %s, low side has %s): '
+                          'one of the two clamps misses a value the other one covers' % (d, diff[0] if diff else '?', json_short(diff[1]) if diff else '', json_short(diff[2]) if diff else ''),
+                          h.get('file'), names['low'].get('l') or h.get('line'))
+            else:
+                r.sample({'fn': d, 'high': 'mirror image of low'})
+    r.floor('computed high/low candle literals', 2, n)
+    return r
+
+
+def json_short(x):
+    import json
+    return json.dumps(x)[:80]
